@@ -37,7 +37,7 @@ function mkLeaf (fam, p) {
 
 function familyA (tier, opts = {}) {
   const atoms = tier === 'thorough' ? G.ATOMS_T : G.ATOMS_Q
-  const atomsZ = G.ATOMS_Q
+  const atomsZ = tier === 'thorough' ? G.ATOMS_Q : G.ATOMS_Q.slice(0, 7) // third slot: reduced alphabet in the quick tier
   const leaves = []
   let stats = { states: 0, transitions: 0 }
   const schemas = opts.kinds ? G.SCHEMAS.filter((s) => opts.kinds.includes(s.kind)) : G.SCHEMAS
